@@ -12,7 +12,7 @@ EXPLANATION = ("(a) reparation.create_*_constraint are called with symbolic foot
                "surviving agents holding a replica of an orphaned computation, fixed neighbours hosted on surviving agents.")
 ASSUMPTIONS = ["numeric parameters are symbolic integers in [0, 2^20]; binary assignments are concrete (products stay linear)",
                "Discovery state is filled locally with publish=False (no directory)"]
-BOUNDS = {"quick": "(a) 2-3 binary variables per constraint; (b) chain of 3 computations, 3 agents, every hosting map, replica sets of size <= 2, every non-empty departed subset of size <= 2",
+BOUNDS = {"quick": "(a) 2-3 binary variables per constraint, and a communication constraint with two fixed and two orphaned neighbours sharing agents (5 binary variables, evaluated twice in a row); (b) chain of 3 computations, 3 agents, every hosting map, replica sets of size <= 2, every non-empty departed subset of size <= 2",
           "thorough": "(a) up to 4 variables; (b) 4 agents, triangle graph"}
 OUTSIDE = "more than 4 agents / 4 computations; discovery states inconsistent with the directory"
 CAP_S = {"quick": 900, "thorough": 5400}
@@ -21,7 +21,7 @@ LIM = 2 ** 20
 
 def jobs(tier):
     out = [{"name": "hosted", "kind": "hosted", "n": 3}, {"name": "capacity", "kind": "capacity", "n": 3},
-           {"name": "hosting", "kind": "hosting", "n": 3}, {"name": "comm", "kind": "comm"},
+           {"name": "hosting", "kind": "hosting", "n": 3}, {"name": "comm", "kind": "comm"}, {"name": "comm2", "kind": "comm2"},
            {"name": "removal-chain3-a3", "kind": "removal", "struct": "chain3", "agents": 3}]
     if tier == "thorough":
         out += [{"name": "hosted-4", "kind": "hosted", "n": 4}, {"name": "capacity-4", "kind": "capacity", "n": 4},
@@ -77,6 +77,27 @@ def run(eng, p):
             eng.notes["outcome"] = {"asg": asg}
             eng.prove(sorted(v.name for v in cons.dimensions) == sorted(asg), "communication constraint has an unexpected scope")
             eng.prove(F.eq(val, exp), "communication constraint is not the defining sum over fixed and candidate neighbours", detail=str(asg))
+        elif k == "comm2":
+            # several neighbours tied to the same agent (two fixed neighbours on a2, two orphaned neighbours with candidates
+            # a2 / a3), per-(neighbour, agent) symbolic costs; the same constraint object is evaluated twice in a row
+            bv = {("c", "a1"): BinaryVariable("B_c_a1"), ("n1", "a2"): BinaryVariable("B_n1_a2"), ("n1", "a3"): BinaryVariable("B_n1_a3"),
+                  ("n2", "a3"): BinaryVariable("B_n2_a3"), ("n2", "a2"): BinaryVariable("B_n2_a2")}
+            info = (["a1", "a2", "a3"], {"f1": "a2", "f2": "a2"}, {"n1": ["a2", "a3"], "n2": ["a3", "a2"]})
+            pairs = [("f1", "a2"), ("f2", "a2"), ("n1", "a2"), ("n1", "a3"), ("n2", "a3"), ("n2", "a2")]
+            cost = {pr: eng.sym_int("comm_%s_%s" % pr, 0, LIM) for pr in pairs}
+            cons = rep.create_agent_comp_comm_constraint("a1", "c", info, lambda cand, v, va: cost[(v, va)], bv)
+            eng.prove(sorted(v.name for v in cons.dimensions) == sorted(v.name for v in bv.values()),
+                      "communication constraint has an unexpected scope")
+            for rnd in (1, 2):
+                asg = {v.name: eng.choose(2, "b%d_%s" % (rnd, v.name)) for v in bv.values()}
+                val = cons(**asg)
+                exp = 0
+                if asg["B_c_a1"]:
+                    exp = cost[("f1", "a2")] + cost[("f2", "a2")] + F.sum(
+                        [cost[(n, a)] for (n, a) in pairs[2:] if asg["B_%s_%s" % (n, a)]])
+                eng.notes["outcome"] = {"asg": asg}
+                eng.prove(F.eq(val, exp), "communication constraint is not the defining sum over fixed and candidate neighbours",
+                          detail=str(asg))
         else:
             run_removal(eng, p)
     except Exception as e:
